@@ -121,7 +121,8 @@ FIXTURES = ["ec-pem-nokid", "ec-dict-explicit-kid", "oct-bytes-nokid", "rsa-dict
 class KidModel:
     fresh_import = False
     MENU = ["thumbprint", "ensure_kid", "kid", "as_dict", "as_dict_public", "as_dict_private", "as_dict_kid_param",
-            "keyset_wrap", "keyset_as_dict", "sign_with_set", "mutate_export", "second_key_shared_params", "check_use"]
+            "keyset_wrap", "keyset_as_dict", "sign_with_set", "mutate_export", "second_key_shared_params", "check_use",
+            "keyset_wrap_behind_sibling_with_same_kid", "import_key_set_with_same_kid_sibling"]
 
     def __init__(self, fixture):
         self.fixture = fixture
@@ -195,6 +196,21 @@ class KidModel:
             out["param_kid"] = key.as_dict(kid="param-from-call").get("kid")
         elif op == "keyset_wrap":
             st["set"] = KeySet([key])
+        elif op in ("keyset_wrap_behind_sibling_with_same_kid", "import_key_set_with_same_kid_sibling"):
+            # RFC 7517 4.5: different keys may share a kid (e.g. keys of different types under one rotation label)
+            label = key.kid if key.kid is not None else "rotation-2024"
+            sib_jwk = {**A.okp_jwk("Ed448", 21), "kid": label}
+            if op.startswith("keyset_wrap"):
+                ks = KeySet([A.jkey(sib_jwk, "dict"), key])
+                out["sibling_kid"] = ks.keys[0].kid
+                st["set"] = KeySet([key])
+            else:
+                mine = key.as_dict(private=True) if key.is_private else key.as_dict()
+                ks = KeySet.import_key_set({"keys": [sib_jwk, dict(mine)]})
+                out["sibling_kid"] = ks.keys[0].kid
+                out["imported_kid"] = ks.keys[1].kid
+                out["imported_want"] = mine.get("kid")
+            out["sibling_want"] = label
         elif op == "keyset_as_dict":
             ks = st["set"] or KeySet([key])
             out["set_kids"] = [k.get("kid") for k in ks.as_dict()["keys"]]
@@ -251,6 +267,13 @@ class KidModel:
             vs.append(viol(f"no kid assigned by {op} [{f}]", f"history {hist + (op,)}"))
         if "export_kid" in obs and obs["export_kid"] is not None and obs["export_kid"] != expected_kid:
             vs.append(viol(f"exported kid differs [{f}]", f"{obs}"))
+        had_kid = any(k is not None for k in st["kids_seen"][:-1])
+        if "export_kid" in obs and had_kid and obs["export_kid"] != expected_kid:
+            vs.append(viol(f"an export made after the key got its kid does not carry it [{f}, {op}]", f"history {hist + (op,)}: exported kid {obs['export_kid']!r}, the key's kid {expected_kid!r}"))
+        if "sibling_kid" in obs and obs["sibling_kid"] != obs["sibling_want"]:
+            vs.append(viol(f"a key set changes the kid of a member that shares its kid with another member [{f}]", f"history {hist + (op,)}: {obs['sibling_want']!r} -> {obs['sibling_kid']!r}"))
+        if "imported_kid" in obs and obs["imported_want"] is not None and obs["imported_kid"] != obs["imported_want"]:
+            vs.append(viol(f"importing a JWK Set changes the kid of a member that shares its kid with another member [{f}]", f"history {hist + (op,)}: {obs['imported_want']!r} -> {obs['imported_kid']!r}"))
         if "param_kid" in obs and obs["param_kid"] != "param-from-call":
             vs.append(viol(f"as_dict(kid=...) parameter not honoured [{f}]", f"{obs}"))
         if "set_kids" in obs and obs["set_kids"] != [expected_kid]:
